@@ -435,7 +435,7 @@ func init() {
 			if tier == "thorough" {
 				return kernel.TierSpec{Runs: 20_000_000, WallSeconds: 1500, ShrinkSecs: 240, RunBudgetMs: 15000}
 			}
-			return kernel.TierSpec{Runs: 60_000, WallSeconds: 40, ShrinkSecs: 25, RunBudgetMs: 6000}
+			return kernel.TierSpec{Runs: 60_000, WallSeconds: 40, ShrinkSecs: 25, RunBudgetMs: 10000}
 		},
 		Rule:      "each run = one simulated process: 1..16 jobs drawn from a seeded pool (builders with colliding dynamic token ids, operators, interceptors, valid and corrupted inputs, several parsers per builder, several compilations per tree), one scheduling strategy (sequential control, random switching, PCT-style priorities with change points, round-robin quanta), parts of a job run inline or as own tasks; every yield decision comes from the tape; distinct = distinct sequence of (task, yield site) at context switches; non-trivial = at least two live jobs and at least one context switch",
 		Real:      []string{"token", "lexer", "parser", "ast", "compiler", "sourcemap", "debug (ToString)"},
